@@ -500,6 +500,8 @@ def run(prog, ctx):
     res.functions_analysed = sum(v["write_sites"] + v["read_sites"] for v in res.extra["families"].values())
     res.entry_points = ["%s::%s / %s::%s" % (specfmt.FAMILIES[f]["writer"] + specfmt.FAMILIES[f]["reader"]) for f in sorted(specfmt.FAMILIES)]
     # theta compressed form: the entry-count width the writer announces is the one the reader consumes (C12.N)
+    n_z = C.emptiness_rule(res, prog, "C11.Z", sorted(C.EMPTY_FLAG))
+    res.rule("C11.Z", n_z, 4, "conditions under which a writer sets the EMPTY flag vs the state is_empty() reads")
     C.import_rules(res, prog, ctx, "C11.N", "C12", ("C12.N", "C12.S"), "entry counts the writer announces vs the entries it emits", 3)
     res.explanation = ("co-simulation of the writer and reader I/O models extracted from MIR: the token sequence the writer emits in each abstract state is "
                        "consumed by the reader model, whose branches are evaluated on the preamble values actually written")
